@@ -86,7 +86,8 @@ def budget_s(tier):
 # stratum is generated when its key is listed in known_findings.json (or VERIF_C19_STRATA=all),
 # so that an unlisted, already reported mechanism never fails the run by itself
 FINDING_STRATA = {"kerning_negative_half_rounds_away_from_zero": "kern_neg_half",
-                  "swap_defcon_transient_self_reference": "swap_cross_ref"}
+                  "swap_defcon_transient_self_reference": "swap_cross_ref",
+                  "ragged_kerning_mixed_half_exception_paths": "kern_mixed_paths"}
 _STRATA = None
 
 
@@ -119,8 +120,15 @@ def gen(rng, idx, tier):
         stratum = "kern_neg_half"
         opts = {"kerning": rng.choice(["aligned", "ragged"]), "kern_values": "half"}
     elif 0.03 <= r < 0.06:
+        # both half-exceptions of a pair in one master: the lookup order is open, both orders are
+        # accepted.  Two full masters only: with more, fontMath's partial sums may evaluate the
+        # missing key through a path some master does not have (stratum kern_mixed_paths)
         stratum = "kern_conflict"
-        opts = {"kerning": "ragged", "kern_conflict": True}
+        opts = {"kerning": "ragged", "kern_conflict": True, "n_axes": 1, "n_masters": 2}
+    elif 0.09 <= r < 0.11 and "kern_mixed_paths" in on:
+        stratum = "kern_mixed_paths"
+        # needs three masters with non-zero weight at one location, i.e. two axes
+        opts = {"kerning": "ragged", "kern_conflict": "split", "kern_values": "int", "n_axes": 2}
     elif 0.06 <= r < 0.09 and "swap_cross_ref" in on:
         stratum = "swap_cross_ref"
         opts = {"rules": rng.choice([1, 2]), "rule_cross_ref": True, "components": True}
@@ -879,6 +887,7 @@ def check_instance(J, ref, ds, case, L, font):
     if ref.fallbacks_used > before_fb:
         bump("ragged_fallback_substitutions", ref.fallbacks_used - before_fb)
     exp_groups = {k: list(v) for k, v in ref.groups.items()}
+    exp_key_origin = {k: k for k in exp_kern}      # key after swaps -> key in the masters
     swaps = ref.swaps_at(loc)
     if ds.get("rules"):
         bump("rule_active_instances" if swaps else "rule_inactive_instances")
@@ -899,6 +908,7 @@ def check_instance(J, ref, ds, case, L, font):
         if exp_glyphs[a]["anchors"] or exp_glyphs[b]["anchors"]:
             bump("swapped_glyph_has_anchors")
         exp_glyphs, exp_kern, exp_groups = rename_swap(exp_glyphs, exp_kern, exp_groups, a, b)
+        _, exp_key_origin, _ = rename_swap({}, exp_key_origin, {}, a, b)
 
     # ---- glyph set
     got_names = sorted(g.name for g in font)
@@ -919,6 +929,11 @@ def check_instance(J, ref, ds, case, L, font):
     # ---- kerning, per key
     got_kern = {tuple(k): v for k, v in font.kerning.items()}
     strict_k = full_master is not None
+    conflict_keys = set()
+    for sk, (l, r) in exp_key_origin.items():
+        hl, hr = ref.g1.get(l), ref.g2.get(r)
+        if hl and hr and (l, hr) in ref.kern_keys and (hl, r) in ref.kern_keys:
+            conflict_keys.add(sk)
     for key in got_kern:
         if key not in exp_kern:
             J.viol("kerning_key_unexpected", loc=loc, key=list(key), value=got_kern[key])
@@ -926,6 +941,12 @@ def check_instance(J, ref, ds, case, L, font):
         if key in got_kern:
             gots = [got_kern[key]]
             bump("kerning_keys_literal")
+        elif key in conflict_keys:
+            # DESIGN 4.5 judges the keys of the instance's dictionary; a key the instance does not
+            # store is additionally judged through the lookup only where that lookup is
+            # unambiguous (not when both half-exceptions of the pair exist in the family)
+            bump("kerning_absent_conflict_keys_skipped")
+            continue
         else:
             gots = lookup_instance(got_kern, got_groups, key)
             bump("kerning_keys_via_fallback")
@@ -938,6 +959,7 @@ def check_instance(J, ref, ds, case, L, font):
             J.viol("kerning_value", loc=loc, key=list(key), expected=[float(c) for c in sorted(cands)],
                    expected_exact=[str(c) for c in sorted(cands)], got=gots[0],
                    literal=key in got_kern, at_master=strict_k, rounded=rounding,
+                   mixed_half_exception_paths=_mixed_paths(ref, exp_key_origin[key]),
                    negative_half_tie=bool(rounding and len(cands) == 1 and e < 0
                                           and e.denominator == 2
                                           and V.fr(gots[0]) == V.otround(e) - 1))
@@ -990,6 +1012,21 @@ def check_instance(J, ref, ds, case, L, font):
                 J.viol("info_value", loc=loc, attr=attr, expected=_fl(e), got=got,
                        at_master=strict_i, rounded=rounding)
                 break
+
+
+def _mixed_paths(ref, key):
+    """Structural predicate: `key` is a glyph-glyph key whose glyphs both sit in kerning groups,
+    it is missing in at least two full masters, and those masters do not all hold the same subset
+    of the two half-exception keys (glyph, group) / (group, glyph)."""
+    l, r = key
+    hl, hr = ref.g1.get(l), ref.g2.get(r)
+    if l.startswith("public.kern1.") or r.startswith("public.kern2.") or not hl or not hr:
+        return False
+    missing = [i for i in ref.full if key not in ref.kern[i]]
+    if len(missing) < 2:
+        return False
+    subsets = {((l, hr) in ref.kern[i], (hl, r) in ref.kern[i]) for i in missing}
+    return len(subsets) > 1
 
 
 def _fl(e):
@@ -1124,4 +1161,10 @@ def classify(v, case):
         # the integer further from zero (fontMath's MathKerning.round uses round-half-away-from-
         # zero, not the otRound the instantiator installs for everything else)
         return "kerning_negative_half_rounds_away_from_zero"
+    if (v["mech"] == "kerning_value" and d.get("mixed_half_exception_paths")
+            and not d.get("at_master")):
+        # fontMath adds the weighted masters one after the other and evaluates a key that a partial
+        # sum does not hold yet through ONE fallback path of that partial sum; a master that
+        # covers the pair only through the other half-exception then contributes nothing
+        return "ragged_kerning_mixed_half_exception_paths"
     return None
